@@ -3444,3 +3444,126 @@ def src2_lookup_candidates(P, R, L, rule="SRC-2"):
         R.analysed(g)
         rev = [c for c in g.calls() if not g.is_cleanup(c.bb) and ((c.name or "").endswith("::rev") or "iter::Rev" in (c.name or ""))]
         R.check(rule, VERSION_GET + "|levels-ascending", not rev, where(g), "Version::get walks the candidate lists from level 0 downwards (no reversed iteration)", "rev sites %d" % len(rev))
+
+
+# ------------------------------------------------------------------------------------------- GRD-16 trivial move only without parent-level inputs
+def grd16_trivial_move(P, R, L, rule="GRD-16"):
+    """A compaction may be done by re-labelling the input file's level only when it is the single input and NO file of
+    the parent level overlaps it: otherwise the moved file overlaps a parent-level file (the version builder's
+    non-overlap assertion then kills the compaction thread, or reads binary-search a non-disjoint level)."""
+    fn = "compaction::manifest::CompactionManifest::is_trivial_move"
+    b = P.body(fn)
+    if b is None:
+        return R.missing_anchor(rule, fn)
+    R.analysed(b)
+
+    def which_input(op):
+        """0 / 1 / None: which element of input_files the operand refers to"""
+        for o in origins(b, op):
+            if o.kind == "call" and (o.name or "").endswith("::get_compaction_level_files"):
+                return 0
+        for il in _index_locals(b, op):
+            for d in b.defs().get(il, []):
+                if d[0] == "stmt" and d[3]["rv"]["k"] == "use" and d[3]["rv"]["ops"][0]["k"] == "const":
+                    if any("input_files" in o.path for o in origins(b, op)):
+                        return int(d[3]["rv"]["ops"][0].get("val"))
+        return None
+
+    def len_of(os_):
+        for o in os_:
+            if o.kind == "call" and (o.name or "").endswith("::len") and o.site is not None:
+                return which_input(o.site.args[0])
+        return None
+    single, empty = [], []
+    for c in comparisons(b):
+        lo, ro = c.lhs_origins(), c.rhs_origins()
+        for (x, y) in ((lo, ro), (ro, lo)):
+            w = len_of(x)
+            cv = [o.name for o in y if o.kind == "const"]
+            eq_edges = [(c.bb, t) for t in (c.true_t if c.op == "eq" else c.false_t if c.op == "ne" else [])]
+            if w == 0 and cv == ["1"]:
+                single += eq_edges
+            if w == 1 and cv == ["0"]:
+                empty += eq_edges
+    for c in b.calls():
+        if not b.is_cleanup(c.bb) and (c.name or "").endswith("::is_empty") and which_input(c.args[0]) == 1:
+            for t in _bt(b, c.dest["l"]):
+                empty += [(t.bb, x) for x in t.ok]
+    maybe_true = []
+    for bb in range(b.n):
+        if b.is_cleanup(bb):
+            continue
+        for st in b.blocks[bb]["stmts"]:
+            if st["k"] == "assign" and st["pl"]["l"] == 0 and not st["pl"]["p"]:
+                rv = st["rv"]
+                if not (rv["k"] == "use" and rv["ops"][0]["k"] == "const" and rv["ops"][0].get("val") == "0"):
+                    maybe_true.append(bb)
+    ok = bool(maybe_true) and bool(single) and bool(empty) and all(b.must_pass(x, through_edges=single) and b.must_pass(x, through_edges=empty) for x in maybe_true)
+    R.check(rule, fn + "|single-input-and-no-parent-files", ok, where(b),
+            "`true` is returned only over the edges `compaction-level inputs == 1` and `parent-level inputs == 0`",
+            "single-input edges %d, empty-parent edges %d, possibly-true returns %s" % (len(single), len(empty), maybe_true))
+    g = P.body("compaction::manifest::CompactionManifest::get_compaction_level_files")
+    if g is not None:
+        R.analysed(g)
+        ok0 = False
+        for bb in range(g.n):
+            for st in g.blocks[bb]["stmts"]:
+                if st["k"] == "assign" and st["rv"]["k"] in ("ref",):
+                    for e in st["rv"]["pl"]["p"]:
+                        if isinstance(e, dict) and "idx" in e:
+                            for d in g.defs().get(e["idx"], []):
+                                if d[0] == "stmt" and d[3]["rv"]["k"] == "use" and d[3]["rv"]["ops"][0]["k"] == "const" and d[3]["rv"]["ops"][0].get("val") == "0":
+                                    ok0 = True
+                        if isinstance(e, dict) and e.get("ci") == 0:
+                            ok0 = True
+        R.check(rule, g.path + "|is-input-0", ok0, where(g), "get_compaction_level_files is input_files[0]", "")
+
+
+# ------------------------------------------------------------------------------------------- GRD-17 flush output level
+def grd17_memtable_output_level(P, R, L, rule="GRD-17"):
+    """Version::pick_level_for_memtable_output pushes a flushed table below level 0 only while nothing in level 0 and
+    nothing in the next level overlaps its user-key range (otherwise the newest data would sit below older data)."""
+    fn = "versioning::version::Version::pick_level_for_memtable_output"
+    b = P.body(fn)
+    if b is None:
+        return R.missing_anchor(rule, fn)
+    R.analysed(b)
+    HAS = "versioning::version::Version::has_overlap_in_level"
+    tests = [c for c in b.calls() if not b.is_cleanup(c.bb) and c.name == HAS]
+    lvl = [l for l in range(len(b.locals)) if b.local_name(l) == "level" and b.local_ty(l) == "usize"]
+    incs = []
+    for bb in range(b.n):
+        if b.is_cleanup(bb):
+            continue
+        for st in b.blocks[bb]["stmts"]:
+            if st["k"] == "assign" and not st["pl"]["p"] and st["pl"]["l"] in lvl and any(
+                    o.kind == "binop" and o.name.startswith("Add") for o in origins(b, {"k": "copy", "pl": st["pl"]}) ) and st["rv"]["k"] != "use" or \
+                    (st["k"] == "assign" and not st["pl"]["p"] and st["pl"]["l"] in lvl and st["rv"]["k"] == "use" and st["rv"]["ops"][0]["k"] in ("copy", "move")
+                     and any(o.kind == "binop" and o.name.startswith("Add") for o in origins(b, st["rv"]["ops"][0]))):
+                incs.append(bb)
+    f0, f1 = [], []
+    arg_ok = True
+    for c in tests:
+        a1 = origins(b, c.args[1])
+        is0 = any(o.kind == "const" and o.name == "0" for o in a1)
+        is_next = any(o.kind == "binop" and o.name.startswith("Add") and o.extra and any(
+            x["k"] == "const" and x.get("val") == "1" for x in o.extra[1]["rv"]["ops"]) for o in a1)
+        edges = [(t.bb, x) for t in _bt(b, c.dest["l"]) for x in t.err]
+        if is0:
+            f0 += edges
+        elif is_next:
+            f1 += edges
+        # the range handed over is (smallest, largest) = (param 2, param 3)
+        p2 = any(o.kind == "param" and o.name == 2 for o in origins(b, c.args[2]))
+        p3 = any(o.kind == "param" and o.name == 3 for o in origins(b, c.args[3]))
+        if not (p2 and p3):
+            arg_ok = False
+    ok = bool(incs) and bool(f0) and bool(f1) and arg_ok and all(b.must_pass(i, through_edges=f0) for i in incs)
+    if ok:
+        for (sb, tgt) in f0:
+            for i in incs:
+                if not b.must_pass(i, through_edges=f1, start=tgt):
+                    ok = False
+    R.check(rule, fn + "|deeper-only-without-overlap", ok, where(b),
+            "the output level is raised only behind `no overlap in level 0` and, per step, `no overlap in level + 1`, tested with (smallest, largest)",
+            "level increments %s, level-0 gates %d, next-level gates %d, range args ok %s" % (incs, len(f0), len(f1), arg_ok))
